@@ -1,0 +1,28 @@
+//go:build verif
+
+// Contracts for package receiver, checked by /verif/govc. Comments only.
+
+package receiver
+
+//@ fieldinv progress.Printer.oldest: 0 <= v && v < 5
+
+// ---------------------------------------------------------------- file list
+
+//@ func receiver.findInFileList
+//@   pure
+
+//@ func receiver.sortFileList
+//@   modifies E:*receiver.File
+
+//@ func (*receiver.File).FileMode
+//@   pure
+
+//@ func (*receiver.Transfer).recvToken
+//@   modifies rsyncwire.CountingReader.BytesRead
+//@   ensures err == nil && token > 0 ==> len(data) == token
+//@   ensures err == nil && token <= 0 ==> len(data) == 0
+
+//@ func (*receiver.Transfer).generateAndSendSums
+//@   requires 0 <= fileLen && fileLen <= 1099511627776
+//@   modifies rsyncwire.CountingWriter.BytesWritten, rsyncwire.CountingReader.BytesRead
+//@   loop 0: invariant remaining >= 0 && i >= 0
